@@ -163,13 +163,17 @@ theorem relInterval_empty_single (l : Location) (s : Int) (m : Location) (h : re
     repeat' split at h
     all_goals first | cases h | exact mkSingle_single _ _ _ m h
   | compound c =>
-    simp only [relInterval, compoundRelInterval, lt_self_iff_false] at h
-    repeat' split at h
-    all_goals first
-      | cases h
-      | (simp only [bind, Except.bind] at h
-         repeat' split at h
-         all_goals first | cases h | exact mkSingle_single _ _ _ m h)
+    simp only [relInterval, compoundRelInterval] at h
+    rw [if_neg (Int.lt_irrefl s)] at h
+    split at h
+    · cases h
+    · split at h
+      · cases h
+      · rw [if_pos trivial] at h
+        simp only [bind, Except.bind] at h
+        split at h
+        · cases h
+        · exact mkSingle_single _ _ _ m h
 
 /-- **sub-interval lemma**: on a directional, non-self-overlapping, non-empty location inside the parent, an
     in-range `relative_interval_to_parent_location(s, e, +)` answers a location on the same strand, again
@@ -179,6 +183,7 @@ theorem sub_extract_read (P alph : List Char) (hnt : isNt alph = true) (l : Loca
     (hno : nonOverlap loc.blocks = true) (hlen : 0 < loc.len) (s e : Nat) (hse : s ≤ e) (he : e ≤ loc.len) :
     ∃ m, relInterval l s e .plus = .ok m ∧ WF m ∧ Within P m ∧ locationStrand? m = some loc.strand ∧
       m ≠ .empty ∧ nonOverlap (locationBlocks m) = true ∧
+      ((∀ b ∈ locationBlocks m, b.1 < b.2) ∨ ∃ b t, m = .single b t) ∧
       locationBases m = ((bases loc).drop s).take (e - s) ∧
       ans (extract P alph m) = readAt P alph loc.strand (((bases loc).drop s).take (e - s)) := by
   have hok := relInterval_ok l h s e .plus
@@ -214,7 +219,14 @@ theorem sub_extract_read (P alph : List Char) (hnt : isNt alph = true) (l : Loca
       have : e = s := by omega
       subst this
       exact relInterval_empty_single l _ m hrel
-  refine ⟨m, hrel, hWF, hW', hs, hmne, hnoM, hb', ?_⟩
+  have hshape : (∀ b ∈ locationBlocks m, b.1 < b.2) ∨ ∃ b t, m = .single b t := by
+    by_cases hlt : s < e
+    · left; exact normal_pos _ (hnorm (by omega))
+    · right
+      have : e = s := by omega
+      subst this
+      exact relInterval_empty_single l _ m hrel
+  refine ⟨m, hrel, hWF, hW', hs, hmne, hnoM, hshape, hb', ?_⟩
   rw [extract_eq P alph hnt m hWF hW', expectExtract_read P alph m loc.strand hs hne, hb']
 
 theorem expectExtract_readAt (P alph : List Char) (l : Location) (loc : Loc) (hl : toLoc l = some loc)
@@ -231,10 +243,12 @@ theorem sub_extract (P alph : List Char) (hnt : isNt alph = true) (l : Location)
     (d : List Char) (hdta : expectExtract P alph l = some d) :
     ∃ m, relInterval l s e .plus = .ok m ∧ WF m ∧ Within P m ∧ locationStrand? m = some loc.strand ∧
       m ≠ .empty ∧ nonOverlap (locationBlocks m) = true ∧
+      ((∀ b ∈ locationBlocks m, b.1 < b.2) ∨ ∃ b t, m = .single b t) ∧
       locationBases m = ((bases loc).drop s).take (e - s) ∧
       ans (extract P alph m) = some ((d.drop s).take (e - s)) := by
-  obtain ⟨m, h1, h2, h3, h4, h5, h5a, h5b, h6⟩ := sub_extract_read P alph hnt l h loc hl hW hd hno hlen s e hse he
-  refine ⟨m, h1, h2, h3, h4, h5, h5a, h5b, ?_⟩
+  obtain ⟨m, h1, h2, h3, h4, h5, h5a, h5c, h5b, h6⟩ :=
+    sub_extract_read P alph hnt l h loc hl hW hd hno hlen s e hse he
+  refine ⟨m, h1, h2, h3, h4, h5, h5a, h5c, h5b, ?_⟩
   rw [expectExtract_readAt P alph l loc hl hd] at hdta
   rw [h6]
   exact readAt_slice P alph loc.strand (bases loc) d hdta s (e - s)
